@@ -26,6 +26,8 @@ def run_property(prop, tier, root=None, quiet=False, write=True,
   repo = core.Repo(root, overrides)
   report = core.Report(prop, tier, repo)
   mod.run(report, repo)
+  from sa import lib  # pylint: disable=g-import-not-at-top
+  lib.check_no_dead_code(report, repo, prop + '-DEAD')
   if not write:
     return None, report
   if tier == 'thorough':
